@@ -187,6 +187,34 @@ type c06Replay struct {
 	Subst   string `json:"subst,omitempty"`
 	SubstK  string `json:"subst_k,omitempty"`
 	SubstV  string `json:"subst_val,omitempty"`
+	Const   bool   `json:"constant_operand,omitempty"` // the checked value is a circuit constant
+}
+
+// c06Const: the range check applied to a circuit CONSTANT v (compiled system).  A system that cannot be built
+// for an out-of-range constant is a rejection; one that compiles must solve iff v is in range.  (Compile
+// failures for in-range constants are not judged here: gnark's own constant folding has defects of its own.)
+func c06Const(kind cs.Kind, mech cs.Mech, width uint64, v *big.Int) (string, string, string) {
+	fn := func(api frontend.API, in []frontend.Variable) []frontend.Variable {
+		c := gl.New(api)
+		if width == 0 {
+			c.RangeCheck(gl.NewVariable(new(big.Int).Set(v)))
+		} else {
+			c.RangeCheckWithMaxBits(gl.NewVariable(new(big.Int).Set(v)), width)
+		}
+		c.RangeCheckWithMaxBits(glv(in[0]), 16)
+		c.RangeCheckWithMaxBits(glv(in[1]), 16)
+		return nil
+	}
+	sys, err := cs.Compile(kind, mech, 2, 0, fn)
+	if err != nil {
+		return "", "", "not-compiled"
+	}
+	serr := sys.Solve([]*big.Int{big.NewInt(0), big.NewInt(0)}, nil)
+	want := inRange(v, width)
+	if (serr == nil) != want {
+		return fmt.Sprintf("constant-operand/%s/%s/%v", kind, mech, want), fmt.Sprintf("range check (width %d, 0 = Goldilocks) of the circuit constant %s compiled for %s with the %s mechanism: solver says %v, in range = %v", width, v, kind, mech, serr, want), "judged"
+	}
+	return "", "", "judged"
 }
 
 // c06Eng evaluates one engine case; returns (key, description) of a violation or "".
@@ -453,7 +481,7 @@ func gnarkWidthCriticalSizes(w, padKind int, plonk bool, max int) []int {
 func TestC06(t *testing.T) {
 	r := rec.New("C06")
 	defer r.Flush()
-	r.Rule("value v (anchors 0, 2^16, 2^32, 2^48, 2^63, 2^64-2^32, p, 2^64, 2^n-1.., r with offsets -2..2; random of every bit length; random inside the range; field fractions y/2^k mod r with small y) x gadget {RangeCheck, RangeCheckQE on pairs, RangeCheckWithMaxBits(n), n in 1..64,96,128,144,192} x configuration {engine: native / plain / commit(padded to 70k checks), each also with USE_BIT_DECOMPOSITION_RANGE_CHECK; compiled R1CS and SCS built for native-range-checker wrapper (two kinds: one whose Compiler() is the wrapper, a thin one whose Compiler() is the plain builder) / commit / forced bits; gnark test engine}; out-of-range values are also tried with dishonest limb hints and a dishonest bit-decomposition hint; 'populations': one w-bit check (w in 16,32,48,64) plus 0..72000 padding checks compiled for R1CS and SCS under the commit checker - circuits the chip refuses are counted, circuits that compile must be exact at 2^w-1, 2^(w+j), 2^(w+j)+1; sizes are rapid-drawn and additionally swept with one size per geometric bucket of ratio 1.15 (thorough 1.04) per builder and padding kind, and at every size where gnark's limb-width optimiser (cost formulas re-implemented from gnark's source) changes its choice or is tied, +-1.  Oracle: accepted <=> v < p (resp. v < 2^n); commit-mode widths not multiple of 16 may be refused.  Non-trivial = value within 2 of a range/field boundary or a dishonest hint; distinct = (v, n, configuration, hint).")
+	r.Rule("value v (anchors 0, 2^16, 2^32, 2^48, 2^63, 2^64-2^32, p, 2^64, 2^n-1.., r with offsets -2..2; random of every bit length; random inside the range; field fractions y/2^k mod r with small y) x gadget {RangeCheck, RangeCheckQE on pairs, RangeCheckWithMaxBits(n), n in 1..64,96,128,144,192} x configuration {engine: native / plain / commit(padded to 70k checks), each also with USE_BIT_DECOMPOSITION_RANGE_CHECK; compiled R1CS and SCS built for native-range-checker wrapper (two kinds: one whose Compiler() is the wrapper, a thin one whose Compiler() is the plain builder) / commit / forced bits; gnark test engine}; out-of-range values are also tried with dishonest limb hints and a dishonest bit-decomposition hint; 'populations': one w-bit check (w in 16,32,48,64) plus 0..72000 padding checks compiled for R1CS and SCS under the commit checker - circuits the chip refuses are counted, circuits that compile must be exact at 2^w-1, 2^(w+j), 2^(w+j)+1; sizes are rapid-drawn and additionally swept with one size per geometric bucket of ratio 1.15 (thorough 1.04) per builder and padding kind, and at every size where gnark's limb-width optimiser (cost formulas re-implemented from gnark's source) changes its choice or is tied, +-1.  Oracle: accepted <=> v < p (resp. v < 2^n); commit-mode widths not multiple of 16 may be refused.  (B1') the checked operand is a circuit constant (R1CS/SCS x forced bits / native mechanism x widths 0, 8, 32, 64 x boundary constants): a system that compiles must solve iff the constant is in range.  Non-trivial = value within 2 of a range/field boundary or a dishonest hint; distinct = (v, n, configuration, hint).")
 	r.Assume("gnark v0.9.1 builders/solver and std/rangecheck as shipped", "the native-range-checker builder wrapper implements Check by bit decomposition inside the wrapped builder")
 
 	var rp c06Replay
@@ -508,7 +536,11 @@ func TestC06(t *testing.T) {
 			if rp.Backend == "scs" {
 				kind = cs.SCS
 			}
-			k, d = c06Compiled(c06SysKey{kind, cs.Mech(rp.Mech), rp.Width}, v, nil)
+			if rp.Const {
+				k, d, _ = c06Const(kind, cs.Mech(rp.Mech), rp.Width, v)
+			} else {
+				k, d = c06Compiled(c06SysKey{kind, cs.Mech(rp.Mech), rp.Width}, v, nil)
+			}
 		}
 		r.Case("replay", true, fmt.Sprint(rp), func() any { return rp })
 		if k != "" {
@@ -676,6 +708,40 @@ func TestC06(t *testing.T) {
 			}
 		})
 	}
+
+	// B1'. the checked operand is a circuit constant
+	constJudged, constNotCompiled := 0, 0
+	ci := 0
+	for _, kind := range []cs.Kind{cs.R1CS, cs.SCS} {
+		for _, mech := range []cs.Mech{cs.MechForcedBits, cs.MechNative} {
+			for _, w := range []uint64{0, 8, 32, 64} {
+				ci++
+				if !rec.Mine(ci) {
+					continue
+				}
+				vals := []*big.Int{big.NewInt(1), pow2(32), new(big.Int).Sub(bigP, big.NewInt(1)), bigP, new(big.Int).Add(bigP, big.NewInt(1)), new(big.Int).Sub(pow2(64), big.NewInt(1)), pow2(64)}
+				if w != 0 {
+					vals = []*big.Int{big.NewInt(1), new(big.Int).Sub(pow2(uint(w)), big.NewInt(1)), pow2(uint(w)), new(big.Int).Add(pow2(uint(w)), big.NewInt(1)), pow2(uint(w) + 16)}
+				}
+				for _, v := range vals {
+					key, d, st := c06Const(kind, mech, w, v)
+					if st == "judged" {
+						constJudged++
+					} else {
+						constNotCompiled++
+					}
+					v := v
+					r.Case(fmt.Sprintf("%s/%s/constant-operand", kind, mech), st == "judged", fmt.Sprint("const", kind, mech, w, v), func() any {
+						return map[string]any{"backend": kind.String(), "mechanism": mech.String(), "width": w, "constant": v.String(), "status": st}
+					})
+					if key != "" {
+						r.Fail(t, "C06/"+key, c06Replay{Backend: kind.String(), Mech: int(mech), Width: w, V: v.String(), Const: true}, "%s", d)
+					}
+				}
+			}
+		}
+	}
+	r.Extra("constant_operand_systems", fmt.Sprintf("judged=%d not_compiled=%d", constJudged, constNotCompiled))
 
 	// B2. populations of collected checks under the commit checker
 	popRefused, popCompiled := 0, 0
